@@ -272,7 +272,28 @@ func EncodeCBOR(h *rt.H, n *Node, o CBOROpts, out []byte) []byte {
 // JSONOpts: insignificant whitespace style (RFC 8259 allows ws around the six
 // structural characters).
 type JSONOpts struct {
-	WS int // 0 none; 1 space after , and :; 2 space before , : ] }; 3 newline after [ { and before ] }; 4 tab+CR everywhere
+	WS  int // 0 none; 1 space after , and :; 2 space before , : ] }; 3 newline after [ { and before ] }; 4 tab+CR everywhere
+	Esc int // 0 none; 1 every string and key starts with \"; 2 every string and key ends with \\ ; 3 starts with \u0041
+}
+
+// jsonStr writes the string/key body between quotes with the escape style of o.
+// Harnesses that need the value decode the text with the reference decoder.
+func jsonStr(h *rt.H, o JSONOpts, body []byte, out []byte) []byte {
+	out = append(out, '"')
+	switch o.Esc {
+	case 1:
+		out = append(out, '\\', '"')
+	case 3:
+		out = append(out, '\\', 'u', '0', '0', '4', '1')
+	}
+	for _, c := range body {
+		h.Assume(c >= 0x20 && c < 0x7f && c != '"' && c != '\\')
+	}
+	out = append(out, body...)
+	if o.Esc == 2 {
+		out = append(out, '\\', '\\')
+	}
+	return append(out, '"')
 }
 
 func (o JSONOpts) after(c byte) string {
@@ -335,12 +356,7 @@ func JSONText(h *rt.H, n *Node, o JSONOpts, out []byte) []byte {
 			out = append(out, d[0], '.', d[1])
 		}
 	case KStr:
-		out = append(out, '"')
-		for _, c := range n.Str {
-			h.Assume(c >= 0x20 && c < 0x7f && c != '"' && c != '\\')
-		}
-		out = append(out, n.Str...)
-		out = append(out, '"')
+		out = jsonStr(h, o, n.Str, out)
 	case KBytes:
 		out = o.tok(out, '[')
 		for i, c := range n.Str {
@@ -366,12 +382,7 @@ func JSONText(h *rt.H, n *Node, o JSONOpts, out []byte) []byte {
 			if i > 0 {
 				out = o.tok(out, ',')
 			}
-			out = append(out, '"')
-			for _, c := range n.Keys[i] {
-				h.Assume(c >= 0x20 && c < 0x7f && c != '"' && c != '\\')
-			}
-			out = append(out, n.Keys[i]...)
-			out = append(out, '"')
+			out = jsonStr(h, o, n.Keys[i], out)
 			out = o.tok(out, ':')
 			out = JSONText(h, k, o, out)
 		}
